@@ -74,7 +74,11 @@ theorem linspace01_getD (n i : Nat) (hn : 2 ≤ n) (hi : i < n) :
 theorem length_takeWhile_le' {α} (p : α → Bool) (l : List α) : (l.takeWhile p).length ≤ l.length := by
   induction l with
   | nil => simp
-  | cons a l ih => simp only [List.takeWhile_cons]; split <;> simp <;> omega
+  | cons a l ih =>
+    simp only [List.takeWhile_cons]
+    split
+    · simp; omega
+    · simp
 
 theorem takeWhile_length_spec {α} (p : α → Bool) (l : List α) :
     (∀ i (h : i < (l.takeWhile p).length), p (l[i]'(Nat.lt_of_lt_of_le h (length_takeWhile_le' p l))) = true) ∧
